@@ -399,7 +399,7 @@ func checkC17(c c17Case) verdict {
 }
 
 var c17Main = newPart("C17", "helpers",
-	"rapid: To8ByteBigEndian over uint64 boundaries and random values; ParseDecimalToBigEndian8 / ParseDecimal64BigEndian / ParseDecimalChallengeRFC6287 over decimal strings of length 0..300 incl. leading zeros, signs, values around 2^32 / 2^64, overlong, non-digits; LeftPadHex / MustHexPadLeft (valid hex only) over odd/even lengths and widths below/at/above the length; ParseHexTimestamp over 0..20 hex digits and malformed text; HexInputToOCRA over five fields each valid / odd-length / non-hex / empty; decimal questions of 1..64 digits end-to-end through GenerateOCRA with numeric-challenge suites of every hash and digit count 4..10; oracles: independent encoders (big-endian by big.Int bytes, strict hex reader, decimal-to-hex by long division on digit arrays, right-padded with '0' to 256 hex digits) and the RFC 6287 reference; non-trivial = odd number of hex digits or value >= 2^32 or malformed text or question length != 8",
+	"rapid: To8ByteBigEndian over uint64 boundaries and random values; ParseDecimalToBigEndian8 / ParseDecimal64BigEndian / ParseDecimalChallengeRFC6287 over decimal strings of length 0..300 incl. leading zeros, signs, values around 2^32 / 2^64, overlong, non-digits; LeftPadHex / MustHexPadLeft (valid hex only, up to 300 digits) over odd/even lengths and widths below/at/above the length, the field widths 8 / 20 / 32 / 64 / 128 with overlong values; ParseHexTimestamp over 0..20 hex digits and malformed text; HexInputToOCRA over five fields each valid / odd-length / non-hex / empty; decimal questions of 1..64 digits end-to-end through GenerateOCRA with numeric-challenge suites of every hash and digit count 4..10; oracles: independent encoders (big-endian by big.Int bytes, strict hex reader, decimal-to-hex by long division on digit arrays, right-padded with '0' to 256 hex digits) and the RFC 6287 reference; non-trivial = odd number of hex digits or value >= 2^32 or malformed text or question length != 8",
 	checkC17)
 
 var c17Fns = []string{"To8ByteBigEndian", "ParseDecimalToBigEndian8", "ParseDecimal64BigEndian", "LeftPadHex", "MustHexPadLeft", "ParseHexTimestamp", "HexInputToOCRA", "ParseDecimalChallengeRFC6287", "ParseDecimalChallengeRFC6287", "question-end-to-end", "question-end-to-end"}
@@ -495,7 +495,11 @@ func genC17(t *rapid.T) c17Case {
 		c.N = rapid.SampledFrom([]int{0, 1, 2, 7, 8, 15, 16, 17, 32, 256, len(c.S), len(c.S) + 1, maxI(len(c.S)-1, 0)}).Draw(t, "w")
 	case "MustHexPadLeft":
 		c.S = []byte(drawDigits(t, hexDigits, 0, 40, "hx"))
-		c.N = rapid.SampledFrom([]int{0, 1, 4, 8, 16, 20, 128, len(c.S) / 2, len(c.S)/2 + 1}).Draw(t, "size")
+		if rapid.IntRange(0, 2).Draw(t, "hxLong") == 0 {
+			// longer than the widest field: overlong values for every width in use (the digest widths 20 / 32 / 64 included)
+			c.S = []byte(drawDigits(t, hexDigits, 41, 300, "hxL"))
+		}
+		c.N = rapid.SampledFrom([]int{0, 1, 4, 8, 16, 20, 32, 64, 128, len(c.S) / 2, len(c.S)/2 + 1, maxI(len(c.S)/2-1, 0), maxI(len(c.S)/2-3, 0)}).Draw(t, "size")
 	case "ParseHexTimestamp":
 		switch rapid.IntRange(0, 4).Draw(t, "tsK") {
 		case 4:
